@@ -1,6 +1,14 @@
 //! Configuration and builders for [`crate::Watchexec`].
 
-use std::{future::Future, pin::pin, sync::Arc, time::Duration};
+use std::{
+	future::Future,
+	pin::pin,
+	sync::{
+		atomic::{AtomicU64, Ordering},
+		Arc,
+	},
+	time::Duration,
+};
 
 use tokio::sync::Notify;
 use tracing::{debug, trace};
@@ -33,6 +41,10 @@ pub struct Config {
 	/// This is set by the change methods whenever they're called, and notifies Watchexec that it
 	/// should read the configuration again.
 	pub(crate) change_signal: Arc<Notify>,
+
+	/// Incremented on every change signal, so that a change which happens while a watcher of the
+	/// config is busy (not currently waiting on the signal) is still noticed afterwards.
+	pub(crate) change_generation: Arc<AtomicU64>,
 
 	/// The main handler to define: what to do when an action is triggered.
 	///
@@ -159,6 +171,7 @@ impl Default for Config {
 	fn default() -> Self {
 		Self {
 			change_signal: Default::default(),
+			change_generation: Default::default(),
 			action_handler: ChangeableFn::new(ActionReturn::Sync),
 			error_handler: Default::default(),
 			pathset: Default::default(),
@@ -182,6 +195,7 @@ impl Config {
 		reason = "this return can explicitly be ignored"
 	)]
 	pub fn signal_change(&self) -> &Self {
+		self.change_generation.fetch_add(1, Ordering::SeqCst);
 		self.change_signal.notify_waiters();
 		self
 	}
@@ -192,7 +206,7 @@ impl Config {
 	/// subsequent one is from a change signal for this Config.
 	#[must_use]
 	pub(crate) fn watch(&self) -> ConfigWatched {
-		ConfigWatched::new(self.change_signal.clone())
+		ConfigWatched::new(self.change_signal.clone(), self.change_generation.clone())
 	}
 
 	/// Set the pathset to be watched.
@@ -273,31 +287,47 @@ impl Config {
 pub(crate) struct ConfigWatched {
 	first_run: bool,
 	notify: Arc<Notify>,
+	generation: Arc<AtomicU64>,
+	seen: u64,
 }
 
 impl ConfigWatched {
-	fn new(notify: Arc<Notify>) -> Self {
+	fn new(notify: Arc<Notify>, generation: Arc<AtomicU64>) -> Self {
 		let notified = notify.notified();
 		pin!(notified).as_mut().enable();
 
 		Self {
 			first_run: true,
+			seen: generation.load(Ordering::SeqCst),
 			notify,
+			generation,
 		}
 	}
 
 	pub async fn next(&mut self) {
-		let notified = self.notify.notified();
-		let mut notified = pin!(notified);
-		notified.as_mut().enable();
+		loop {
+			let notified = self.notify.notified();
+			let mut notified = pin!(notified);
+			notified.as_mut().enable();
 
-		if self.first_run {
-			trace!("ConfigWatched: first run");
-			self.first_run = false;
-		} else {
+			// changes made since we last looked (e.g. while the caller was busy applying the
+			// previous one) did not find us waiting on the signal: the generation tells.
+			let generation = self.generation.load(Ordering::SeqCst);
+
+			if self.first_run {
+				trace!("ConfigWatched: first run");
+				self.first_run = false;
+				self.seen = generation;
+				return;
+			}
+
+			if generation != self.seen {
+				trace!("ConfigWatched: config changed since last run");
+				self.seen = generation;
+				return;
+			}
+
 			trace!(?notified, "ConfigWatched: waiting for change");
-			// there's a bit of a gotcha where any config changes made after a Notified resolves
-			// but before a new one is issued will not be caught. not sure how to fix that yet.
 			notified.await;
 		}
 	}
